@@ -585,7 +585,7 @@ func init() {
 	Register(&Prop{
 		ID:        "C01",
 		Technique: "bounded exhaustive enumeration of schema projects (typed value x rule template x boundary values x 8 positions), each judged by a three-valued reference semantics of the rules written from the property statement",
-		Rule: "typed values: min/max/both x exclusivity x 11 (thorough 21) boundary numbers squared; precision x fraction digits; minLength/maxLength/ranges/regex x 7 strings; 5 string formats x clear-cut strings; explicit types x 7 literals x nullable; const; enum singletons and pairs over 11 scalars; arrays x minItems/maxItems 0..4; each typed value in the positions root, property, item, @t shortcut, type:\"@t\", or:[\"@t\",\"@u\"], or:[{rule set},{type:boolean}], type of a type; non-trivial = projects with a reference verdict",
+		Rule:      "typed values: min/max/both x exclusivity x 11 (thorough 21) boundary numbers squared; precision x fraction digits; minLength/maxLength/ranges/regex x 7 strings; 5 string formats x clear-cut strings; explicit types x 7 literals x nullable; const; enum singletons and pairs over 11 scalars; arrays x minItems/maxItems 0..4; each typed value in the positions root, property, item, @t shortcut, type:\"@t\", or:[\"@t\",\"@u\"], or:[{rule set},{type:boolean}], type of a type; non-trivial = projects with a reference verdict",
 		Bounds: func(tier string) map[string]any {
 			return map[string]any{"positions": c01Positions, "boundary_numbers": map[string]int{"quick": len(c01Nums), "thorough": len(c01Nums) + 10}[tier]}
 		},
